@@ -481,6 +481,7 @@ def plan_loops(b_holder):
     ]
     dict_mod = lambda c: [('heap', c, 'has'), ('heap', c, 'val'), ('heap', c, 'n'), ('heap', c, 'order')]
     files_mod = all_mod + dict_mod(sym.DictC(STR, Ref(DIGESTSET))) + dict_mod(sym.DictC(STR, FMETA)) + dict_mod(sym.DictC(STR, INT)) + [
+        ('heap', sym.ListC(BOOL), 'arr'), ('heap', sym.ListC(BOOL), 'len'),       # temporaries of comprehensions
         ('heap', sym.ListC(Ref(ENTRYREC)), 'arr'), ('heap', sym.ListC(Ref(ENTRYREC)), 'len')]
     def psum_axioms(ctx):
         st = ctx.st
@@ -597,6 +598,10 @@ def plan_post(prop):
                 # skipped: already planned from a newer snapshot, or filtered out; nothing is touched
                 res.oblige(p, f'{prop}.plan.skip_touches_nothing', z3.BoolVal(not stores and not p.events('list_append')))
         res.oblige([], f'{prop}.plan.file_iterations_checked', z3.BoolVal(n_files >= 3))
+        # every readable snapshot is examined: the planning loops are never left early (a path that exists only in an
+        # older snapshot must still be planned)
+        early = [p for nm in ('For#1', 'For#2') for p in res.body_paths(nm) if p.kind == 'break']
+        res.oblige([], f'{prop}.plan.no_early_exit_from_planning_loops', z3.BoolVal(not early))
     return post
 
 
